@@ -1433,3 +1433,14 @@ Proof. intros ops. unfold get_stats, listed_items. cbn [fst]. apply (stats_folde
 (* a settings list that names a path twice (the F29 witness) lists the directory once *)
 Definition ops_dup : list op :=
   [LoadSettings [([w_d], c [97], Everyone, []); ([w_d], c [97], Friends, [])]; Scan [w_d] [([w_d; w_sing], 5%N)]].
+
+(* items of different shared directories are never equal in the sense of Python (SharedItem.__eq__ includes the directory):
+   files with the same relative path and mtime below two directories stay two items in every set *)
+Lemma items_distinct : forall ops d d' x y, In d (listed (run ops)) -> In d' (listed (run ops)) ->
+  In x (ditems d) -> In y (ditems d') -> item_eq x y = true -> d = d'.
+Proof.
+  intros ops d d' x y Hd Hd' Hx Hy E. destruct (sinv_run ops) as [N1 [_ [_ [O _]]]].
+  apply item_eq_fields in E. destruct E as [E _].
+  destruct (O d x Hd Hx) as [_ P1]. destruct (O d' y Hd' Hy) as [_ P2].
+  apply (NoDup_map_inj_on _ _ dpath (listed (run ops))); auto. congruence.
+Qed.
